@@ -85,6 +85,16 @@ impl CpuMask {
         }
 //@ end
 
+    /// CpuMask::new() = Self::with_words(Self::default_words()) in the repository; with_words is verified above to
+    /// return the empty set for every width, default_words() is `NonZero::new(INLINE_WORDS).expect(..)`. Assumed here
+    /// (one line) so that the pin region below can start at the mask's creation.
+    #[verifier::external_body]
+    pub fn new() -> (r: Self)
+        ensures forall|id: int| !#[trigger] r.has(id),
+    {
+        unimplemented!()
+    }
+
 //@ extract fn packages/many_cpus_impl/src/pal/linux/cpu_mask.rs CpuMask::word
 //@ rewrite "self.words.get(index).copied().unwrap_or(EMPTY_WORD)" "match self.words.get(index) { Some(w) => *w, None => EMPTY_WORD }"
 //@ ret r
@@ -95,11 +105,11 @@ impl CpuMask {
 
 // ---------------- region: pin_current_thread_to's mask-building loop ----------------
 // Local rewrite: `processor.as_ref().as_target().id` (projection of a platform processor to its id) -> `*processor`
-// over a Vec of ids; CpuMask::new() -> with_words(default width) is a parameter.
-//@ extract block packages/many_cpus_impl/src/pal/linux/platform.rs Platform for BuildTargetPlatform::pin_current_thread_to from "for processor in processors.iter() {"
+// over a Vec of ids. The region starts at the creation of the mask (`let mut mask = CpuMask::new();`), so that the
+// mask handed to the kernel is built from nothing but this call's processors (seed C10-c reused a per-thread buffer).
+//@ extract block packages/many_cpus_impl/src/pal/linux/platform.rs Platform for BuildTargetPlatform::pin_current_thread_to from "let mut mask = CpuMask::new();" to "for processor in processors.iter() {"
 //@ wrap
-fn pin_mask_loop(processors: &Vec<ProcessorId>, mut mask: CpuMask) -> (r: CpuMask)
-    requires forall|id: int| !#[trigger] mask.has(id),
+fn pin_mask_loop(processors: &Vec<ProcessorId>) -> (r: CpuMask)
     ensures
         // the mask passed to sched_setaffinity holds exactly the ids of `processors`
         forall|id: int| #[trigger] r.has(id) <==> (exists|i: int| 0 <= i < processors@.len() && processors@[i] as int == id),
